@@ -76,3 +76,25 @@ theorem c07_appendable_table (f : StreamFacts) :
         (if f.readable then .ok true else .error .value) else .ok false) := by
   obtain ⟨s, p, o, r⟩ := f
   cases s <;> cases o <;> cases r <;> by_cases hp : p = 0 <;> simp [isAppendable, hp]
+
+/-- **C07 (a re-open is a flush).** On a stream that begins with the header this file was created with — whatever
+    blocks follow — closing the writer and opening a new one for append, with any arguments, continues with the very
+    same configuration and the state a `flush` leaves: a history with re-opens is the same history with flushes. -/
+theorem c07_reopen_is_flush (enc : Val → WR) (validate : Val → R Bool) (codecFor : String → Option Codec)
+    (cfg : WCfg) (st : WState) (metadata : List (String × Bytes)) (hb : Bytes) (codecName : String)
+    (hw : writeHeader metadata cfg.sync = ⟨hb, none⟩) (hsync : cfg.sync.length = 16)
+    (hkeys : (metadata.map (·.1)).Nodup) (hlen : metadata.length < Spec.LIMIT)
+    (hsmall : ∀ e ∈ metadata, (utf8Enc e.1).length < Spec.LIMIT ∧ e.2.length < Spec.LIMIT)
+    (hcodec : metadata.lookup "avro.codec" = some (utf8Enc codecName)) (hfor : codecFor codecName = some cfg.codec)
+    (hout : ∃ area, st.out = hb ++ area) :
+    reopenStep codecFor cfg st = .ok (cfg, (step enc validate cfg st .flush).1) := by
+  obtain ⟨area, harea⟩ := hout
+  have hgrow : ∃ area', (dumpIfPending cfg st).out = hb ++ area' := by
+    unfold dumpIfPending
+    split
+    · exact ⟨area ++ blockBytes cfg.codec cfg.sync st.count st.pending, by simp [dump, harea, List.append_assoc]⟩
+    · exact ⟨area, harea⟩
+  obtain ⟨area', harea'⟩ := hgrow
+  unfold reopenStep
+  simp only [harea', c07_reopen_resumes metadata cfg.sync area' hb codecName hw hsync hkeys hlen hsmall hcodec, bind, Except.bind, hfor,
+    pure, Except.pure, step]
